@@ -644,12 +644,12 @@ pub fn histories(quick: bool) -> Vec<Vec<COp>> {
     let all = COp::all();
     let mut out: Vec<Vec<COp>> = vec![vec![]];
     let mut level: Vec<Vec<COp>> = vec![vec![]];
-    for _ in 0..3 {
+    for depth in 0..3 {
         let mut next = vec![];
         for hst in &level {
             for o in &all {
-                // at most one 1 MB request per history keeps the image count within budget
-                if *o == COp::Av1m && hst.contains(&COp::Av1m) {
+                // 1 MB requests (about 250 WAL frames each) only in histories of up to two requests
+                if *o == COp::Av1m && (depth == 2 || hst.contains(&COp::Av1m)) {
                     continue;
                 }
                 let mut h2 = hst.clone();
